@@ -1,13 +1,105 @@
 /-
-  C18 — keyspace region planning is exact on every input.  Property theorems only.
--/
-import KadDHT.Model.Keyspace
-namespace KadDHT.C18
-open KadDHT
+  C18 — keyspace region planning is exact on every input.
 
-theorem isPre_refl (k : Key) : isPre k k = true := by
-  induction k with
-  | nil => rfl
-  | cons a k ih => simp [isPre, ih]
+  Property theorems only (helper lemmas live in KadDHT/Proofs/Keyspace.lean).  Every theorem is
+  about the executable model in KadDHT/Model/Keyspace.lean, which the correspondence run ties to
+  provider/internal/keyspace on every check.  `Trie.WF [] t` is the real precondition of the Go code:
+  a go-libdht trie stores a key only below the path spelled by its own bits (for bit-string tries this
+  makes the key set prefix-free; go-libdht panics on anything else).
+
+  Still open at full strength (monitored by the correspondence + the brute-force predicates of the
+  `C18v` driver on every run, exhaustively for short keys):  allocate_exact, coalesce_spec, gaps_spec,
+  nextLeaf_cyclic_successor, covered_iff, allEntries_sorted.
+-/
+import KadDHT.Proofs.Keyspace
+namespace KadDHT.C18
+open KadDHT Trie
+variable {α β : Type}
+
+/-- FindPrefixOfKey: the result is a stored key that is a prefix of `k` … -/
+theorem findPrefixOfKey_sound (t : Trie α) (k p : Key) (h : t.findPrefixOfKey k = some p) :
+    p ∈ t.keys ∧ isPre p k = true := by
+  have := findPrefixAt_sound k 0 t p h
+  exact ⟨(mem_keys t p).2 this.1, this.2⟩
+
+/-- … and every stored prefix of `k` is found (it is unique: stored keys are pairwise not
+    prefix-related, `keys_prefix_free`). -/
+theorem findPrefixOfKey_complete (t : Trie α) (hwf : WF [] t) (k p : Key) (hp : p ∈ t.keys)
+    (hpk : isPre p k = true) : t.findPrefixOfKey k = some p :=
+  findPrefixAt_complete k [] t p hwf ((mem_keys t p).1 hp) hpk
+
+theorem findPrefixOfKey_none_iff (t : Trie α) (hwf : WF [] t) (k : Key) :
+    t.findPrefixOfKey k = none ↔ ∀ p ∈ t.keys, isPre p k = false := by
+  constructor
+  · intro h p hp
+    cases hpk : isPre p k with
+    | false => rfl
+    | true => rw [findPrefixOfKey_complete t hwf k p hp hpk] at h; cases h
+  · intro h
+    cases hf : t.findPrefixOfKey k with
+    | none => rfl
+    | some p => have := findPrefixOfKey_sound t k p hf; rw [h p this.1] at this; cases this.2
+
+/-- the keys of a well-formed trie are pairwise not prefix-related, in particular distinct -/
+theorem keys_prefix_free (t : Trie α) (hwf : WF [] t) :
+    (keysL t).Pairwise (fun a b => isPre a b = false ∧ isPre b a = false) := hwf.pairwise
+
+/-- AllEntries/AllKeys in any order enumerate exactly the stored keys, each once -/
+theorem allKeys_perm (t : Trie α) (hwf : WF [] t) (order : Key) :
+    (∀ x, x ∈ t.keysIn order ↔ x ∈ keysL t) ∧ (t.keysIn order).length = (keysL t).length ∧ (keysL t).Nodup :=
+  ⟨mem_keysIn t order, by simp [keysIn, entries, entriesAt_length, keysL_length], hwf.nodup⟩
+
+/-- PruneSubtrie removes exactly the keys that start with `k` -/
+theorem prune_spec (t : Trie α) (hwf : WF [] t) (k x : Key) :
+    x ∈ (t.prune k).keys ↔ (x ∈ t.keys ∧ isPre k x = false) := by
+  have := mem_pruneAt k [] t hwf (isPre_nil k) x
+  simpa [prune, mem_keys] using this
+
+/-- SubtractTrie hands to the result exactly the keys of `t0` that no key of `t1` is a prefix of -/
+theorem subtract_spec (t0 : Trie α) (t1 : Trie β) (h0 : WF [] t0) (h1 : WF [] t1) (x : Key) :
+    x ∈ (subtractAt 0 t0 t1).map (·.1) ↔ (x ∈ t0.keys ∧ ∀ y ∈ t1.keys, isPre y x = false) := by
+  simpa [mem_keys] using mem_subtractAt 0 t0 t1 [] rfl h0 h1 x
+
+/-- RegionsFromPeers (on the peers trie below `path`): the regions partition the peers … -/
+theorem regions_partition_peers (size : Nat) (order path : Key) (t : Trie α) (hwf : WF path t) (x : Key) :
+    x ∈ (regionsAt size order path t).flatMap (fun ps => keysL ps.2) ↔ x ∈ keysL t :=
+  (regionsAt_spec size order path t hwf).2 x
+
+/-- … every region's peers lie under the region's prefix, which lies under the covered prefix … -/
+theorem regions_peers_under_prefix (size : Nat) (order path : Key) (t : Trie α) (hwf : WF path t) :
+    ∀ ps ∈ regionsAt size order path t, isPre path ps.1 = true ∧ ∀ x ∈ keysL ps.2, isPre ps.1 x = true := by
+  intro ps hps
+  have := (regionsAt_spec size order path t hwf).1 ps hps
+  exact ⟨this.1, fun x hx => this.2.1.mem_isPre hx⟩
+
+/-- … region prefixes never overlap … -/
+theorem regions_no_overlap (size : Nat) (order path : Key) (t : Trie α) :
+    ((regionsAt size order path t).map (·.1)).Pairwise (fun a b => isPre a b = false ∧ isPre b a = false) :=
+  regionsAt_pairwise size order path t
+
+/-- … each region holds at least `size` peers whenever the total allows … -/
+theorem regions_size_ge (size : Nat) (order path : Key) (t : Trie α) (h : size ≤ t.size) :
+    ∀ ps ∈ regionsAt size order path t, size ≤ ps.2.size := regionsAt_size size order path t h
+
+/-- … and every (long enough) key under the covered prefix matches exactly one region: it matches one
+    (`regionsAt_cover`) and `AssignKeysToRegions` puts it into that one and no other. -/
+theorem assign_exactly_one (size : Nat) (hs : 1 ≤ size) (order path : Key) (t : Trie α) (hne : t ≠ empty)
+    (h : Key) (hp : isPre path h = true) (hlen : path.length + t.height ≤ h.length) :
+    let ps := (regionsAt size order path t).map (·.1)
+    assignKey ps h ∈ ps ∧ isPre (assignKey ps h) h = true ∧
+      ∀ q ∈ ps, isPre q h = true → q = assignKey ps h := by
+  intro ps
+  obtain ⟨p, hp1, hp2⟩ := regionsAt_cover size hs order path t hne h hp hlen
+  have hm := assignKey_matches ps h p hp1 hp2
+  refine ⟨hm.1, hm.2, ?_⟩
+  intro q hq hqh
+  exact (assignKey_unique ps h q hq hqh (regionsAt_pairwise size order path t)).symm
+
+/-! non-vacuity: a concrete well-formed trie with leaves at two depths meets the hypotheses -/
+def exT : Trie Nat := node (node (leaf [false, false] 1) (leaf [false, true, true] 2)) (leaf [true] 3)
+example : WF [] exT := by simp [exT, WF, isPre]
+example : exT.findPrefixOfKey [false, true, true, false] = some [false, true, true] := by decide
+example : (exT.prune [false]).keys = [[true]] := by decide
+example : (regionsAt 1 [] [] exT).map (·.1) = [[false, false], [false, true], [true]] := by decide
 
 end KadDHT.C18
